@@ -12,7 +12,7 @@ META = {
              'sequence pattern, window?, user-supplied subset, write number); all but plain increasing float64 are non-trivial'),
     'required_obs': {'quick': ['c13-indexed', 'c13-no-index-type', 'c13-user-supplied', 'c13-single-row', 'c13-unsigned-decreasing',
                                'c13-diff-beyond-dtype', 'c13-uniform', 'c13-nonuniform', 'c13-near-uniform', 'c13-nan',
-                               'c13-direction-present', 'c13-window', 'c13-rewrite']
+                               'c13-direction-present', 'c13-window', 'c13-rewrite', 'c13-failed-first-write']
                      + ['c13-dtype-' + d for d in gen.DTYPES]},
     'assumptions': ['tolerance rule as documented in FrameItem._compute_spacing_and_direction: (1 - d/median)^2 < 0.001, '
                     'evaluated with a +-20 % guard band in which either outcome is accepted',
@@ -180,6 +180,26 @@ def run_case(case):
         path = harness.fresh_path()
         nwr = r.choice([2, 3])
         n = sp['ops'][1]['data']['shape'][0]
+        # optionally the FIRST write is one that the library rejects while it sets the frame up (2-D index data, or a
+        # non-uniform index in high-compatibility mode); the cause is then removed and the file written
+        failed_first = r.choice([None, None, '2d-index', 'hc-nonuniform'])
+        if failed_first and sp['ops'][3]['attrs'].get('index_type') is not None:
+            import numpy as np
+            key = sp['ops'][1].get('dataset_name') or sp['ops'][1]['name']
+            if failed_first == '2d-index':
+                bad = (np.arange(n * 1, dtype='<f8') * 3.0 + 1000.0).reshape(n, 1)
+                w0 = S.do_write(sp, b, path, harness.scratch_dir(), data={key: bad})
+            else:
+                from dliswriter import high_compatibility_mode
+                bad = np.cumsum(np.arange(1, n + 1, dtype='<f8') ** 2) + 5000.0
+                try:
+                    with high_compatibility_mode():
+                        w0 = S.do_write(sp, b, path, harness.scratch_dir(), data={key: bad})
+                except Exception as e:  # noqa
+                    w0 = ('exc', type(e).__name__, str(e)[:100])
+            bump('c13-failed-first-write:' + failed_first + ':' + w0[0])
+            if w0[0] != 'ok':
+                bump('c13-failed-first-write')
         for wn in range(1, nwr + 1):
             spw = copy.deepcopy(sp)
             if wn > 1 and n > 1:
